@@ -1031,6 +1031,21 @@ def stats_body(k, nbins, nboot, nested, multinom=False, thetas=False, full_len='
             w1 = Godambe.Wald_stat(model, [10], boots, list(p), P.data, list(nested), fp_in,
                                    multinom=multinom, eps=P.eps)
             _eqv(env, 'Wald(default)=adj', w1, wa)
+            if not multinom:
+                # p0 given as an ndarray: same values, and the caller's array is left untouched (Wald and score)
+                for nm_, call_ in (('Wald_stat', lambda q_: Godambe.Wald_stat(model, [10], boots, q_, P.data, list(nested),
+                                                                              fp_in, multinom=False, eps=P.eps)),
+                                   ('score_stat', lambda q_: Godambe.score_stat(model, [10], boots, q_, P.data,
+                                                                                list(nested), multinom=False,
+                                                                                eps=P.eps))):
+                    q_arr = np.array(list(p), dtype=object if env.symbolic else float)
+                    q_keep = list(q_arr)
+                    _clear_cache()
+                    val_ = call_(q_arr)
+                    if nm_ == 'Wald_stat':
+                        _eqv(env, 'Wald_stat(ndarray p0)', val_, wa)
+                    for i_ in range(len(q_keep)):
+                        _eqv(env, '%s leaves p0[%d] unchanged' % (nm_, i_), q_arr[i_], q_keep[i_])
             _clear_cache()
             sa, so = Godambe.score_stat(model, [10], boots, list(p), P.data, list(nested), multinom=multinom,
                                         eps=P.eps, adj_and_org=True)
